@@ -181,6 +181,16 @@ func runFnCase(c *Ctx, m string, name string, args []*variants.Variant) {
 				return
 			}
 		}
+		// rounding family and square root: IEEE functions of the converted argument
+		if rf, ok := map[string]func(float64) float64{"Ceil": math.Ceil, "Ceiling": math.Ceil, "Floor": math.Floor, "Round": math.Round, "Sqrt": math.Sqrt, "Sqr": math.Sqrt}[canon]; ok && len(args) == 1 {
+			if d, err := mgrOf(m).Convert(args[0], variants.Double); err == nil && args[0].Type() != variants.Null {
+				want := "ok " + encF64(rf(d.AsDouble()))
+				if impl != want {
+					c.fail(Failure{Kind: "oracle", Op: op, Impl: impl, Note: canon + " must be the IEEE double function of the converted argument: " + want})
+					return
+				}
+			}
+		}
 		if f, ok := mathHost[map[string]string{"Ln": "Log"}[canon]+canon]; ok && canon != "Ln" || canon == "Ln" {
 			if canon == "Ln" {
 				f = math.Log
@@ -259,10 +269,23 @@ func runFnEdited(c *Ctx, m, name, removed string, args []*variants.Variant, plai
 	found := ""
 	got := safeCall(func() string {
 		coll := functions.NewDefaultFunctionCollection()
-		coll.RemoveByName(removed)
-		coll.Add(functions.NewDelegatedFunction("UserDefined", func(params []*variants.Variant, ops variants.IVariantOperations) (*variants.Variant, error) {
+		user := functions.NewDelegatedFunction("UserDefined", func(params []*variants.Variant, ops variants.IVariantOperations) (*variants.Variant, error) {
 			return variants.VariantFromString("user"), nil
-		}))
+		})
+		// four edit histories (chosen by the removed name): remove only; remove then add; add then remove; find, remove
+		switch len(removed) % 4 {
+		case 0:
+			coll.RemoveByName(removed)
+		case 1:
+			coll.RemoveByName(removed)
+			coll.Add(user)
+		case 2:
+			coll.Add(user)
+			coll.RemoveByName(removed)
+		default:
+			coll.FindByName(name)
+			coll.RemoveByName(removed)
+		}
 		f := coll.FindByName(name)
 		if f == nil {
 			return "err FUNC_NOT_FOUND"
@@ -277,7 +300,7 @@ func runFnEdited(c *Ctx, m, name, removed string, args []*variants.Variant, plai
 		return
 	}
 	if got != plain {
-		c.fail(Failure{Kind: "oracle", Op: op, Impl: got, Spec: plain, Note: fmt.Sprintf("after RemoveByName(%q) and one Add, %s(...) gives %s; on the untouched default collection it gives %s", removed, name, got, plain)})
+		c.fail(Failure{Kind: "oracle", Op: op, Impl: got, Spec: plain, Note: fmt.Sprintf("after RemoveByName(%q) (edit history %d), %s(...) gives %s; on the untouched default collection it gives %s", removed, len(removed)%4, name, got, plain)})
 	}
 }
 
